@@ -31,12 +31,13 @@ class Live:
         from src.mesh import Mesh, MeshParametrized
         self.spec = spec
         self.ts = [float(t) for t in spec['ts']]
+        form = {'list': list, 'tuple': tuple, 'array': lambda v: np.array(v, dtype=float)}[spec.get('grid_form', 'list')]
         with repo.quiet():
             if spec['kind'] == 'abstract':
                 self.xs = [float(x) for x in spec['xs']]
                 self.glued = bool(spec['glue'])
-                self.mesh = Mesh(glue_space=self.glued, initial_space_mesh=list(self.xs),
-                                 initial_time_mesh=list(self.ts))
+                self.mesh = Mesh(glue_space=self.glued, initial_space_mesh=form(self.xs),
+                                 initial_time_mesh=form(self.ts))
                 self.gamma = None
             else:
                 g = curve(spec['curve'])
@@ -45,9 +46,9 @@ class Live:
                 self.xs = [float(x) for x in (xs if xs is not None else g.pw_start)]
                 self.glued = bool(g.closed)
                 if xs is None:
-                    self.mesh = MeshParametrized(g, initial_time_mesh=list(self.ts))
+                    self.mesh = MeshParametrized(g, initial_time_mesh=form(self.ts))
                 else:
-                    self.mesh = MeshParametrized(g, initial_space_mesh=list(self.xs), initial_time_mesh=list(self.ts))
+                    self.mesh = MeshParametrized(g, initial_space_mesh=form(self.xs), initial_time_mesh=form(self.ts))
         self.n_t = len(self.ts) - 1
         self.n_x = len(self.xs) - 1
         self.model = Model(self.n_t, self.n_x, self.glued)
